@@ -48,7 +48,8 @@ contract(
         # the wiring: data values, the fitted penalty and min_segment_length reach run_pelt; scores and changepoints are its results
         "scores": f"forall(range(self.min_segment_length, n + 1), lambda u: payload(self.scores)[u - 1] == PF({TOKP}, self.min_segment_length, self.penalty_, u))",
         "changepoints_wellformed": "forall(range(len(payload(result))), lambda q: self.min_segment_length <= payload(result)[q] and "
-                                   "payload(result)[q] <= n - self.min_segment_length)",
+                                   "payload(result)[q] <= n - self.min_segment_length) and "
+                                   "forall(range(len(payload(result)) - 1), lambda q: payload(result)[q] + self.min_segment_length <= payload(result)[q + 1])",
         "fitted_on_X": "self._cost._is_fitted == True and self._cost.ghost_n == n",
     },
     props=["C02", "C10", "C04"],
@@ -74,6 +75,9 @@ contract(
               "self._change_score.min_size <= self.min_segment_length", "self.max_interval_length >= 2 * self.min_segment_length",
               "self.growth_factor > 1", "self.growth_factor <= 2"],
     raises={"ValueError": "HASNAN(X) or n < 2 * self.min_segment_length"},
+    modifies={"self.scores": "any", "self._change_score._X": "=X", "self._change_score._is_fitted": "=True", "self._change_score.ghost_tok": "int",
+              "self._change_score.ghost_n": "=n", "self._change_score.ghost_p": "=p", "self._change_score.ghost_q": "int"},
+    returns="frame:int[K]",
     ensures={
         "changepoints_wellformed": "forall(range(len(payload(result))), lambda q: self.min_segment_length <= payload(result)[q] and "
                                    "payload(result)[q] <= n - self.min_segment_length) and "
@@ -391,6 +395,8 @@ for _cp in _KIND:
                       "self._collective_saving.min_size >= 1", "self._collective_saving.min_size <= self.min_segment_length",
                       "self._point_saving.min_size == 1"],
             raises={"ValueError": "HASNAN(X) or n < self.min_segment_length"},
+            modifies={"self.scores": "series:real[n]", **_FITM("self._collective_saving"), **_FITM("self._point_saving")},
+            returns="frame:list[(int,int,int[])]",
             ensures={
                 "scores": f"forall(range(1, n + 1), lambda T: payload(self.scores)[T - 1] == CG({_tc}, {_tp}, T))",
                 # C04: reported intervals lie in [0, n], are point anomalies or of admissible length, sorted and pairwise disjoint
